@@ -45,6 +45,33 @@ def gen(rng, et):
             if r < 0.75:
                 return ("CStar",)
             return ("CNone",)
+        if rng.random() < 0.12:
+            # a race of several conditional writers from ONE ETag (C08_race_n / C08_create_race_n): all carry the ETag that is
+            # current now (or, on a free name, If-None-Match: *); at most the first may be carried out
+            def newobj():
+                while True:        # the universe of the ETag table: content ids 0..2; never the content the writers started from
+                    o = (name % 100, "CCard" if card else rng.choice(["CEvent", "CTodo"]), rng.randrange(3))
+                    if o != cur:
+                        return o
+            if cur is not None:
+                im = ("CTag", ("EtItem", cur))
+                for j in range(rng.randrange(3, 6)):
+                    if rng.random() < 0.3:
+                        hist.append((1, ("RDelete", p, im)))
+                        if stored.get(p) == cur:
+                            stored[p] = None
+                    else:
+                        o = newobj()
+                        hist.append((1, ("RPut", p, "CTNone", ("BCards" if card else "BCal", [o]), im, False)))
+                        if stored.get(p) == cur:
+                            stored[p] = o
+            elif all(v is None or v[0] != name % 100 or q[:2] != c for q, v in stored.items()):
+                for j in range(rng.randrange(2, 4)):
+                    o = newobj()
+                    hist.append((1, ("RPut", p, "CTNone", ("BCards" if card else "BCal", [o]), ("CNone",), True)))
+                    if stored.get(p) is None:
+                        stored[p] = o
+            continue
         if k < 0.55:
             o = (name % 100, "CCard" if card else rng.choice(["CEvent", "CTodo"]), rng.randrange(3))
             b = ("BCards" if card else "BCal", [o])
